@@ -1189,7 +1189,7 @@ func (ex *Exec) specEnv(h *Heap) *SpecEnv {
 	for k, v := range ex.ghosts {
 		vars[k] = v
 	}
-	return &SpecEnv{vc: ex.vc, vars: vars, heap: h, old: ex.entry}
+	return &SpecEnv{vc: ex.vc, vars: vars, params: ex.params, heap: h, old: ex.entry}
 }
 
 func (ex *Exec) run() {
@@ -1666,7 +1666,7 @@ func (ex *Exec) exit() {
 		return
 	}
 	pos := ex.rets[0].pos
-	for _, c := range vc.fc.clauses("ensures") {
+	for _, c := range vc.fc.own("ensures") {
 		if !hasProp(c, ex.prop) {
 			continue
 		}
@@ -1677,14 +1677,8 @@ func (ex *Exec) exit() {
 		}
 		ex.oblig("post", c.Label, "", pos, fmt.Sprintf("(=> %s %s)", g, t), []string{ex.prop})
 	}
-	for _, c := range vc.fc.clauses("modifies") {
-		if !(hasProp(c, ex.prop) || len(c.Props) == 0) {
-			continue
-		}
-		ex.frame(c, env, pos)
-	}
-	if vc.fc.has("pure") {
-		ex.frame(&Clause{Kind: "modifies", Expr: "nothing"}, env, pos)
+	if ex.frameActive {
+		ex.frame(nil, env, pos)
 	}
 }
 
@@ -1784,12 +1778,12 @@ func (ex *Exec) initFrame(env0 *SpecEnv) {
 	ex.frameActive = false
 	ex.frameLocs = nil
 	var cls []*Clause
-	for _, c := range vc.fc.clauses("modifies") {
+	for _, c := range vc.fc.own("modifies") {
 		if hasProp(c, ex.prop) || len(c.Props) == 0 {
 			cls = append(cls, c)
 		}
 	}
-	if vc.fc.has("pure") {
+	if len(vc.fc.own("pure")) > 0 {
 		cls = append(cls, &Clause{Kind: "modifies", Expr: "nothing"})
 	}
 	if len(cls) == 0 {
@@ -1812,14 +1806,7 @@ func (ex *Exec) initFrame(env0 *SpecEnv) {
 
 func (ex *Exec) frame(c *Clause, env *SpecEnv, pos token.Pos) {
 	vc := ex.vc
-	locs, everything, err := vc.modLocs(env, c.Expr)
-	if err != nil {
-		vc.ctx.contractError(vc.fc, c, err)
-		return
-	}
-	if everything {
-		return
-	}
+	locs := ex.frameLocs
 	g := ex.cur.guard
 	if len(ex.abstractedGuards) > 0 {
 		ex.oblig("frame", "abstracted-call", "", pos, fmt.Sprintf("(not (and %s (or %s)))", g, strings.Join(ex.abstractedGuards, " ")), []string{ex.prop})
@@ -1829,12 +1816,13 @@ func (ex *Exec) frame(c *Clause, env *SpecEnv, pos token.Pos) {
 		names = append(names, n)
 	}
 	sort.Strings(names)
-	var goals []string
+	n0 := 0
 	for _, n := range names {
 		a0, a1 := ex.entry.get(n), ex.cur.heap.get(n)
 		if a0 == a1 {
 			continue
 		}
+		n0++
 		sk := vc.fresh("frame.r", "Int")
 		var ex2 []string
 		for _, l := range locs {
@@ -1842,12 +1830,12 @@ func (ex *Exec) frame(c *Clause, env *SpecEnv, pos token.Pos) {
 				ex2 = append(ex2, fmt.Sprintf("(not (= %s %s))", sk, l.ref))
 			}
 		}
-		goals = append(goals, fmt.Sprintf("(=> (and (>= %s 0) (< %s alloc0) %s) (= (select %s %s) (select %s %s)))", sk, sk, strings.Join(ex2, " "), a1, sk, a0, sk))
+		goal := fmt.Sprintf("(=> (and (>= %s 0) (< %s alloc0) %s) (= (select %s %s) (select %s %s)))", sk, sk, strings.Join(ex2, " "), a1, sk, a0, sk)
+		ex.oblig("frame", n, "", pos, fmt.Sprintf("(=> %s %s)", g, goal), []string{ex.prop})
 	}
-	if len(goals) == 0 {
-		goals = []string{"true"}
+	if n0 == 0 {
+		ex.oblig("frame", "", "", pos, "true", []string{ex.prop})
 	}
-	ex.oblig("frame", "", "", pos, fmt.Sprintf("(=> %s (and %s))", g, strings.Join(goals, " ")), []string{ex.prop})
 }
 
 // fpArith encodes a floating-point +,-,*,/ either exactly (SMT FloatingPoint,
